@@ -15,14 +15,22 @@ src = a.src or f"/tmp/wt_{a.pid}"
 dst = f"/verif/seeded/{a.name}"
 os.makedirs(dst, exist_ok=True)
 patch = os.path.join(src, "patch.diff")
-if not os.path.exists(os.path.join(dst, "patch.diff")) or os.path.exists(patch):
-    shutil.copy(patch, os.path.join(dst, "patch.diff"))
-demo = [f for f in os.listdir(src) if f.startswith("demo_") and f.endswith(".py")]
-for f in demo:
-    shutil.copy(os.path.join(src, f), os.path.join(dst, f))
+if os.path.isdir(src):
+    if os.path.exists(patch):
+        shutil.copy(patch, os.path.join(dst, "patch.diff"))
+    for f in os.listdir(src):
+        if f.startswith("demo_") and f.endswith(".py"):
+            shutil.copy(os.path.join(src, f), os.path.join(dst, f))
+old_meta = {}
+if os.path.exists(os.path.join(dst, "meta.json")):
+    old_meta = json.load(open(os.path.join(dst, "meta.json")))
 demo = [f for f in os.listdir(dst) if f.startswith("demo_") and f.endswith(".py")][0]
 d = tempfile.mkdtemp(prefix="wgseed_", dir="/tmp")
-meta = {"property": a.pid, "needs": a.needs, "ran": []}
+meta = {"property": a.pid, "needs": a.needs or old_meta.get("needs", ""), "ran": [],
+        "history": old_meta.get("history", []) + ([{"earlier_run": old_meta.get("ran")}] if old_meta.get("ran") else [])}
+for k in ("suite_patched",):
+    if k in old_meta:
+        meta[k] = old_meta[k]
 try:
     subprocess.run(["rsync", "-a", "--exclude", ".git", "--exclude", "docs", "/repo/", d + "/"], check=True)
     r = subprocess.run(["patch", "-p1", "-d", d, "-i", os.path.join(dst, "patch.diff")], capture_output=True, text=True)
@@ -44,7 +52,7 @@ try:
     envv = dict(os.environ, WGVERIF_REPO=d, WGVERIF_EVIDENCE_DIR=os.path.join(d, "_ev"))
     for prop in props:
         t0 = time.time()
-        r = subprocess.run(["/verif/check", prop, "--tier", a.tier], env=envv, capture_output=True, text=True)
+        r = subprocess.run(["/verif/check", prop, "--tier", a.tier], env=envv, capture_output=True, text=True, timeout=5400)
         lines = [l for l in r.stdout.splitlines() if re.search(r"VIOLATION| x\d+:", l)]
         mechs = sorted({re.sub(r" x\d+:.*", "", l).split("] ")[-1] for l in lines if " x" in l})
         print(f"check {prop} ({a.tier}): exit={r.returncode} mechs={mechs} {time.time()-t0:.0f}s")
